@@ -757,10 +757,15 @@ impl<'t, 'c> Gen<'t, 'c> {
             let ty = pa.sty.ety().unwrap();
             let by_ref = self.t.chance(1, 2);
             if by_ref {
-                // a plain variable of exactly the parameter's type: not a loop counter, not SHARED, not passed twice
-                let l = self.scalar(ty, true);
+                // a plain variable of exactly the parameter's type: not a loop counter, not SHARED.
+                // The same variable may be passed twice: values are written back left to right, the last one stays.
+                let mut l = self.scalar(ty, true);
+                let earlier: Vec<LValue> = args.iter().filter_map(|a: &Expr| if let Expr::Load(x) = a { if x.sty == STy::B(ty) && x.index.is_empty() && used_by_ref.contains(&x.var) { Some(x.clone()) } else { None } } else { None }).collect();
+                if !earlier.is_empty() && self.t.chance(1, 3) {
+                    l = earlier[self.t.choose(earlier.len())].clone();
+                }
                 let shared = self.shared_names.iter().any(|n| n.eq_ignore_ascii_case(&l.name));
-                if !used_by_ref.contains(&l.var) && !shared {
+                if !shared {
                     used_by_ref.push(l.var);
                     args.push(Expr::Load(l));
                     continue;
@@ -889,7 +894,14 @@ impl<'t, 'c> Gen<'t, 'c> {
             for j in 0..np {
                 let ty = *self.t.pick(&[Ty::Int, Ty::Long, Ty::Single, Ty::Double, Ty::Str]);
                 let extended = self.t.chance(1, 4);
-                let pname = if extended { format!("P{}", (b'A' + j as u8) as char) } else { format!("P{}{}", (b'A' + j as u8) as char, ty.suffix()) };
+                let mut pname = if extended { format!("P{}", (b'A' + j as u8) as char) } else { format!("P{}{}", (b'A' + j as u8) as char, ty.suffix()) };
+                if !extended && self.t.chance(1, 5) {
+                    // the bare name of a SHARED variable with another type character: a different variable
+                    let cands: Vec<String> = self.shared_names.iter().filter(|n| !n.ends_with(ty.suffix())).map(|n| n[..n.len() - 1].to_string()).filter(|b| !params.iter().any(|q: &Param| q.name.starts_with(b.as_str()))).collect();
+                    if !cands.is_empty() {
+                        pname = format!("{}{}", cands[self.t.choose(cands.len())], ty.suffix());
+                    }
+                }
                 params.push(Param { name: pname.clone(), var: j, sty: STy::B(ty), array: false, extended });
                 vars.push(VarInfo { name: pname, sty: STy::B(ty), bounds: vec![], shared: false });
             }
